@@ -966,6 +966,37 @@ def r06a(ctx, rep):
         rep.note("R06a: %d reviewed entr(ies) no longer correspond to a site (construct changed or removed)" % len(stale))
 
 
+def r06a_restricted(ctx, rep, rule, prefixes, title, floor):
+    """C06's inventory restricted to the functions of one module family, re-labelled for the property whose procedures
+    live there (an abort is neither the value nor the error those properties promise)"""
+    facts, cg = ctx["facts"], ctx["cg"]
+    rep.rule(rule, "%s: every panic-capable operation in %s is justified by an idiom re-established on this run or by a "
+             "reviewed entry keyed by function, operand shapes and dominating guards (C06's inventory R06a restricted to "
+             "these modules): an out-of-range index must come back as an error, and an abort is not an error." % (
+                 title, ", ".join(short_path(x) for x in prefixes)))
+    sites_all = [s_ for s_ in inventory(facts) if s_.fn.path.startswith(tuple(prefixes))]
+    sites = [s_ for s_ in sites_all if not covered_by_r08(s_)]
+    # keys must be assigned over the whole inventory to stay identical to R06a's
+    whole = [s_ for s_ in inventory(facts) if not covered_by_r08(s_)]
+    assign_keys(whole)
+    discharge(facts, cg, whole)
+    reviewed = load_reviewed()
+    n = 0
+    for s_ in whole:
+        if not s_.fn.path.startswith(tuple(prefixes)):
+            continue
+        n += 1
+        key = s_.key.replace("R06a", rule, 1)
+        if s_.verdict == "idiom":
+            rep.ok(rule, key, "%s in %s — %s" % (s_.what, s_.fn.short, s_.why), [s_.loc])
+        elif s_.key in reviewed:
+            rep.ok(rule, key, "%s in %s — reviewed: %s" % (s_.what, s_.fn.short, reviewed[s_.key]["reason"]), [s_.loc])
+        else:
+            rep.fail(rule, key, "%s in %s (%s) can panic and no argument is on file%s" % (
+                s_.what, s_.fn.short, s_.shape, (" [guards: %s]" % ", ".join(s_.guards)) if s_.guards else ""), [s_.loc])
+    rep.floor(rule, "panic-capable sites in %s" % ", ".join(short_path(x) for x in prefixes), n, floor)
+
+
 def r06b(ctx, rep):
     facts, cg = ctx["facts"], ctx["cg"]
     rep.rule("R06b", "no mutable borrow is held across a call into the library: while a RefMut guard is live, only "
@@ -1066,6 +1097,7 @@ def run(ctx, rep):
     r06b(ctx, rep)
     r06z(ctx, rep)
     r06f(ctx, rep)
+    r06g(ctx, rep)
     # R06n: the arithmetic arms of number.rs, arm by arm (same rule as C08's R08a)
     sub = type(rep)(rep.prop)
     numeric.r08a(ctx, sub)
@@ -1075,6 +1107,14 @@ def run(ctx, rep):
         o.key = o.key.replace("R08a", "R06n", 1)
         rep.obs.append(o)
     tables.r11c(ctx, rep, rule="R06c")
+    # R06r: the premise of idiom I-radix (radix parameters are validated by their callers) is C16's R16b
+    sub = type(rep)(rep.prop)
+    numeric.r16b(ctx, sub)
+    rep.rules["R06r"] = sub.rules.get("R16b", "").replace("R16b", "R06r")
+    for o in sub.obs:
+        o.rule = "R06r"
+        o.key = o.key.replace("R16b", "R06r", 1)
+        rep.obs.append(o)
     runloop.r_stack_monotone(ctx, rep, "R06s")
     # R06i: the zero test the guards rely on
     sub = type(rep)(rep.prop)
@@ -1085,9 +1125,108 @@ def run(ctx, rep):
         if o.key == "R09c|Number::is_zero":
             o.rule, o.key = "R06i", "R06i|Number::is_zero"
             rep.obs.append(o)
-    rep.not_decided += ["termination in general (list?/equal?/length/result conversion on circular data loop forever; no loop-variant argument is in reach; only float-equality loops are checked, R06f)",
+    rep.not_decided += ["termination in general (no loop-variant argument is in reach; decided only for float-equality loops, R06f, and for the circular-data traversals R7RS names, R06g)",
                         "native stack exhaustion (C19)", "allocation failure for sizes beyond 10^6",
                         "panics inside external crates on paths the may-panic table does not list"]
+
+
+COPE_RUST = [
+    # (procedure, functions implementing its traversal, what to say)
+    ("list?", ["marwood::vm::builtin::predicate::is_list"], "(list? l) on a circular l"),
+    ("equal?", ["marwood::vm::compare::<impl marwood::vm::Vm>::equal", "marwood::vm::compare::<impl marwood::vm::Vm>::compare_pair",
+                "marwood::vm::compare::<impl marwood::vm::Vm>::compare_vector"], "(equal? a b) on circular / self-containing a, b"),
+    ("display, write, value of an evaluation", ["marwood::vm::heap::Heap::get_as_cell"],
+     "(display l), (write l) or l itself as the result, for a circular list or self-containing vector l"),
+]
+
+
+def _cycle_witness(facts, paths):
+    """a visited set (HashSet/HashMap insert + contains/get) or a two-cursor meeting test (two values each derived from
+    an as_cdr inside one loop compared for equality) somewhere in the given functions"""
+    from ..shapes import roots
+    for p in paths:
+        f = facts.fns.get(p)
+        if f is None:
+            continue
+        cs = [(bb, t, callee(t) or "") for bb, t in f.calls()]
+        ins = [1 for bb, t, c in cs if ("HashSet" in c or "HashMap" in c or "BTreeSet" in c) and c.endswith("::insert")]
+        look = [1 for bb, t, c in cs if ("HashSet" in c or "HashMap" in c or "BTreeSet" in c) and c.endswith(("::contains", "::get", "::contains_key"))]
+        if ins and (look or ins):
+            return "a visited set in %s" % f.short
+        for src, h in f.back_edges():
+            body = (f.reach_from(h) & f.reach_back(src)) | {h, src}
+            cdrs = [(bb, t) for bb, t, c in cs if bb in body and c.endswith("VCell::as_cdr")]
+            cursors = set()
+            for bb, t in cdrs:
+                for r in roots(f, t["args"][0]):
+                    cursors.add(r)
+            if len(cdrs) < 2 or len(cursors) < 2:
+                continue
+            for bb, t, c in cs:
+                if bb in body and "PartialEq" in (t.get("fnargs") or c) and c.endswith("::eq") and len(t["args"]) == 2:
+                    ra, rb = roots(f, t["args"][0]), roots(f, t["args"][1])
+                    if ra and rb and ra != rb and (ra | rb) <= cursors | {x for x in ra | rb if x[0] == "v"}:
+                        return "two cursors advanced by as_cdr in one loop of %s and compared (tortoise and hare)" % f.short
+    return None
+
+
+def _prelude_length_witness(root):
+    from . import prelude as P
+    try:
+        macros, forms, path = P.load_macros(root)
+    except (OSError, IndexError):
+        return None, "prelude.scm unreadable"
+    d = None
+    for fm in forms:
+        if isinstance(fm, list) and len(fm) >= 3 and fm[0] == "define" and isinstance(fm[1], list) and fm[1] and fm[1][0] == "length":
+            d = fm
+        if isinstance(fm, list) and len(fm) == 3 and fm[0] == "define" and fm[1] == "length":
+            d = fm
+    if d is None:
+        return None, "no definition of length in the prelude"
+    steps = set()
+    tests = []
+
+    def walk(x):
+        if isinstance(x, list) and x:
+            if x[0] in ("cdr", "cddr") and len(x) == 2 and isinstance(x[1], P.Sym):
+                steps.add(str(x[1]))
+            if x[0] in ("eq?", "eqv?") and len(x) == 3 and all(isinstance(a, P.Sym) for a in x[1:]):
+                tests.append((str(x[1]), str(x[2])))
+            for y in x:
+                walk(y)
+    walk(d)
+    ok = any(a != b and a in steps and b in steps for a, b in tests)
+    return ok, "cursors stepped by cdr: %s; identity tests: %s" % (sorted(steps), tests)
+
+
+def r06g(ctx, rep, rule="R06g"):
+    facts = ctx["facts"]
+    rep.rule(rule, "the procedures R7RS requires to cope with circular data carry a cycle witness: list?, length, equal? and the "
+             "datum conversion behind display / write / the value handed to the host follow heap edges until they meet a "
+             "non-pair; on a circular list or a self-containing vector that never happens. Each of these traversals must "
+             "contain a visited set or a two-cursor meeting test (tortoise and hare); a traversal with neither loops forever "
+             "(or recurses until the native stack is gone) on such an argument.")
+    for name, paths, what in COPE_RUST:
+        if not any(p in facts.fns for p in paths):
+            rep.anchor_lost(rule, "traversal of %s (%s)" % (name, ", ".join(short_path(p) for p in paths)))
+            continue
+        w = _cycle_witness(facts, paths)
+        key = "%s|%s" % (rule, name.split(",")[0])
+        f0 = facts.fns.get([p for p in paths if p in facts.fns][0])
+        if w:
+            rep.ok(rule, key, "%s: %s" % (name, w), [f0.span])
+        else:
+            rep.fail(rule, key, "%s: the traversal (%s) has neither a visited set nor a two-cursor meeting test: %s never returns "
+                     "(or exhausts the native stack)" % (name, ", ".join(short_path(p) for p in paths), what), [f0.span])
+    ok, detail = _prelude_length_witness(ctx["root"])
+    if ok is None:
+        rep.anchor_lost(rule, "length: " + detail)
+    elif ok:
+        rep.ok(rule, "%s|length" % rule, "length (prelude.scm) advances two cursors and tests their identity (%s)" % detail)
+    else:
+        rep.fail(rule, "%s|length" % rule, "length (prelude.scm) follows cdr with a single cursor and no identity test (%s): "
+                 "(length l) on a circular l never returns and grows the stack without bound" % detail)
 
 
 def r06f(ctx, rep):
